@@ -235,11 +235,11 @@ func runSpec(sp *execSpec) vx.Result {
 		}
 		cc.add("no-crash")
 		if crashRE.MatchString(res.Err) || crashRE.MatchString(res.Out) || res.Code < 0 || res.Code > 128 {
-			fp := "crash:" + sp.Part + ":" + stepName(st)
+			fp := "crash:" + crashClass(res.Err+"\n"+res.Out) + ":" + sp.Part + ":" + stepName(st)
 			if sp.Cfg.Mut != nil {
-				fp = "crash:" + sp.Cfg.MutKind + "-response:" + sp.Cfg.Mut.class()
+				fp = "crash:" + crashClass(res.Err+"\n"+res.Out) + ":" + sp.Cfg.MutKind + "-response:" + sp.Cfg.Mut.nodeClass()
 			}
-			v.add(fp, fmt.Sprintf("command %s %v crashed (exit %d):\n%s", name, st.Args, res.Code, tail(scrub(res.Err), 1500)), cmdlog)
+			v.add(fp, fmt.Sprintf("command %s %v crashed (exit %d):\n%s", name, st.Args, res.Code, tail(scrub(res.Err), 1500)), map[string]interface{}{"case": sp.Case, "commands": cmdlog})
 		}
 		if i == sp.ExpectFailStep && sp.ExpectFailStep >= 0 {
 			cc.add("hash-algo-command-fails")
@@ -375,6 +375,40 @@ func shapeOf(v interface{}) string {
 		return "null"
 	}
 	return "?"
+}
+
+var (
+	panicRE = regexp.MustCompile(`(?m)^(?:panic|fatal error): (.*)$`)
+	frameRE = regexp.MustCompile(`(?m)^github\.com/git-lfs/git-lfs/v3/([A-Za-z0-9_/]+)\.([^\s(]*(?:\(\*?[A-Za-z0-9_]+\))?[^\s(]*)\(`)
+	slugRE  = regexp.MustCompile(`[^a-z0-9]+`)
+)
+
+// crashClass names a crash by its panic class and the innermost git-lfs frame: one class per defect, independent of the input that triggered it.
+func crashClass(out string) string {
+	class := "abnormal-exit"
+	if m := panicRE.FindStringSubmatch(out); m != nil {
+		msg := m[1]
+		switch {
+		case strings.Contains(msg, "nil pointer dereference"):
+			class = "nil-deref"
+		case strings.Contains(msg, "negative WaitGroup counter"):
+			class = "negative-waitgroup"
+		case strings.Contains(msg, "index out of range"), strings.Contains(msg, "slice bounds out of range"):
+			class = "out-of-range"
+		case strings.Contains(msg, "all goroutines are asleep"):
+			class = "deadlock"
+		default:
+			if len(msg) > 40 {
+				msg = msg[:40]
+			}
+			class = strings.Trim(slugRE.ReplaceAllString(strings.ToLower(msg), "-"), "-")
+		}
+		if f := frameRE.FindStringSubmatch(out[strings.Index(out, m[0]):]); f != nil {
+			fn := strings.NewReplacer("(*", "", ")", "", "(", "").Replace(f[2])
+			class += ":" + f[1] + "." + fn
+		}
+	}
+	return class
 }
 
 func stepName(st step) string {
